@@ -5,7 +5,7 @@ from ..callgraph import callee_is
 from ..mirutil import (root_place, op_root, deep_root, place_is_field, calls_on_field, aggregates, origin, defuse,
                        calls_in, forward_taint, field_writes)
 from ..region import dominated_by_edges, bool_place_edges
-from ..decision import table_by_conditions, lookup
+from ..decision import table_by_conditions, lookup, lookup_by_reachability
 from ..lengths import eq_sites, const_of
 from .. import anchors as A
 
@@ -40,8 +40,8 @@ def r1_mode_table(cx):
                  "%s is assigned from a table of constants selected by mode / device type (%d entries)" % (f, len(tabs[f])))
     for (mode, dev), (learn, bc) in sorted(DOC_TABLE.items()):
         asg = {"mode": mode, "device_type": dev}
-        l = lookup(tabs["learning"], asg)
-        b = lookup(tabs["broadcast"], asg)
+        l = lookup_by_reachability(new, rv["ops"][rv["fields"].index("learning")], asg)
+        b = lookup_by_reachability(new, rv["ops"][rv["fields"].index("broadcast")], asg)
         cx.check("mode:%s/%s" % (mode, dev), l == [learn] and b == [bc], site_of(new),
                  "mode %s on %s => (learning, broadcast) = (%d, %d) as documented (found %s, %s)" % (mode, dev, learn, bc, l, b))
     # the flags are never reassigned later
@@ -190,6 +190,16 @@ def tag_masked_before_use(cx, label="tag"):
             if r is not None and r["l"] == arr:
                 o = origin(fp, a)
                 uses.append((o[1] if o[0] == "call" else bi, "comparison of the tag (VLAN 0 test)"))
+    for bi, si, s in fp.stmts():
+        if s["k"] == "assign" and s["rv"]["k"] == "binop" and s["rv"]["op"] in ("Eq", "Ne"):
+            for o in (s["rv"]["a"], s["rv"]["b"]):
+                pl = op_place(o)
+                if pl is None:
+                    continue
+                r = root_place(fp, pl)
+                if r["l"] == arr and any(e["k"] in ("index", "cidx") for e in r.get("p", [])):
+                    uses.append((bi, "comparison of the tag (VLAN 0 test)"))
+    uses = sorted(set(uses))
     cx.floor(label + ":tag-uses", len(uses), 2, "uses of the tag bytes after they were read")
     for bu, what in uses:
         cx.check(label + ":masked-before:" + what, fp.cfg.dominates(bm, bu), site_of(fp, bu),
@@ -207,11 +217,15 @@ def _promoted_array(body, op):
         if not d or d[0] != "stmt":
             return None
         rv = d[3]["rv"]
+        if rv["k"] == "use" and rv["op"]["k"] == "const" and isinstance(rv["op"].get("bytes"), list):
+            return list(rv["op"]["bytes"])   # a named byte-array constant
         if rv["k"] == "use" and rv["op"]["k"] == "const" and "promoted" in rv["op"]:
             pb = body.promoted[rv["op"]["promoted"]]
             for bi, si, s in pb.stmts():
                 if s["k"] == "assign" and s["rv"]["k"] == "aggregate" and s["rv"].get("agg") == "array":
                     return [op_const(o) for o in s["rv"]["ops"]]
+                if s["k"] == "assign" and s["rv"]["k"] == "use" and s["rv"]["op"]["k"] == "const" and isinstance(s["rv"]["op"].get("bytes"), list):
+                    return list(s["rv"]["op"]["bytes"])   # reference to a named byte-array constant
             return None
         if rv["k"] == "ref":
             cur = rv["place"]["l"]
